@@ -152,3 +152,18 @@ Definition effective_concat (files : list file) (cli : list Z) (table : Z -> lis
   | Err => None
   | OutOfFuel => None
   end.
+
+(* Options.is_error_code_enabled_anywhere over the whole pipeline (an error code's values are 0/1):
+   the stored, sorted instances are read as booleans and handed to the translated function *)
+Definition inst_to_bool (i : inst Z) : inst bool :=
+  mk_inst (negb (Z.eqb (value i) 0)) (applicable_to i) (from_command_line i) (priority i).
+
+Definition effective_anywhere (files : list file) (cli : list Z) (default : Z) : option bool :=
+  match parse_main true files with
+  | Ok l =>
+      let cli_insts := map (fun v => mk_inst v [] true 0%Z) cli in
+      Some (PV.Gen.Options.enabled_anywhere (negb (Z.eqb default 0))
+              (map inst_to_bool (PV.Gen.Options.from_option_list cli_insts l)))
+  | Err => None
+  | OutOfFuel => None
+  end.
